@@ -1,12 +1,15 @@
 import LokyModel.Props.C02
+import LokyModel.Props.C01
+import LokyModel.Lemmas.ExecTokenU
 /-!
 # C03 — right result to the right future, at-most-once execution (executor protocol)
 
 Decision-logic theorems over M1: how work ids are issued, dispatched, cancelled and resolved.  The
-whole-run statement "a task body is executed at most once" needs the token-accounting invariant over
-the call buffer, the pipe and the workers' hands; it is decided on the real code by the E1 execution
-logs (no duplicate, none for a successfully cancelled future, value = the task's own result) and is the
-next theorem to add.  `map == builtin map` is `Props/C03Map.lean`.
+whole-run statements — a task body is started at most once, never for a future whose `cancel()` returned
+True, and a result travels back only for a body that was started — are proved at the end of this file for
+*every reachable state* (all schedules, time-outs, failed try-locks and crashes) from the token-accounting
+invariant `TokInv` of `Lemmas/ExecToken*.lean`; the same facts are observed on the real code by the E1 execution
+logs.  `map == builtin map` is `Props/C03Map.lean`.
 -/
 namespace LokyModel.Exec
 
@@ -83,5 +86,46 @@ theorem C03_body_runs_from_call_item (s s' : St) (p : Pid) (w : Wid) (t : Tid) (
     (hs : stepW s p .ok = some s') : s'.execLog = s.execLog ++ [(p, t)] ∧ s'.w p = .taskEnd w t := by
   unfold stepW at hs; simp only [hpc] at hs
   cases hs; simp [setW]
+
+/-! ### whole-run statements (token accounting) -/
+
+/-- **At-most-once execution.**  In every reachable state — whatever the interleaving of user threads, manager,
+    feeder and workers, whichever time-outs fire and whichever workers die — the body of each work id has
+    been started at most once. -/
+theorem C03_at_most_once (cfg : Cfg) (s : St) (h : Reachable cfg s) (i : Wid) : s.execW.count i ≤ 1 := by
+  have := (tokInv_reachable h).once i; omega
+
+/-- **A work id is in at most one place.**  Work-id queue, manager's hands, call-queue buffer, feeder's hands,
+    call pipe, a worker's hands — and once its body has started it is in none of them. -/
+theorem C03_one_place (cfg : Cfg) (s : St) (h : Reachable cfg s) (i : Wid) :
+    s.workIds.count i + preOut s i + s.execW.count i ≤ 1 :=
+  (tokInv_reachable h).once i
+
+/-- **Never if `cancel()` returned True.**  A future whose cancellation succeeded stays cancelled and its body
+    is never started; no call item and no result for it exists anywhere. -/
+theorem C03_cancelled_never_runs (cfg : Cfg) (s : St) (h : Reachable cfg s) (i : Wid) (hc : i ∈ s.cancelOk) :
+    futOf s i = .cancelled ∧ s.execW.count i = 0 ∧ preOut s i = 0 ∧ post s i = 0 := by
+  have inv := tokInv_reachable h
+  have hf := inv.cancelled i hc
+  have := inv.undisp i (Or.inr hf)
+  exact ⟨hf, this.2.2, this.1, this.2.1⟩
+
+/-- **No result without an execution**: result messages for `i` (in a worker's hands, in the result pipe, in
+    the manager's hands) never outnumber the started bodies of `i` — at most one, and none before the body
+    started. -/
+theorem C03_result_only_after_execution (cfg : Cfg) (s : St) (h : Reachable cfg s) (i : Wid) :
+    post s i ≤ s.execW.count i ∧ post s i ≤ 1 := by
+  have inv := tokInv_reachable h
+  have := inv.postle i; have := inv.once i
+  exact ⟨by omega, by omega⟩
+
+/-- A future that is still PENDING has not been handed to anybody: its id is at most in the work-id queue. -/
+theorem C03_pending_not_dispatched (cfg : Cfg) (s : St) (h : Reachable cfg s) (i : Wid) (hp : futOf s i = .pending) :
+    preOut s i = 0 ∧ post s i = 0 ∧ s.execW.count i = 0 :=
+  (tokInv_reachable h).undisp i (Or.inl hp)
+
+/-- non-vacuity: the schedule of `Props/C01` (create, submit, shutdown; the task runs and its value is delivered)
+    reaches a state where the body of work id 0 has been started — exactly once -/
+example : (run (init cfgD7) schedD7).map (fun s => (s.execW, futOf s 0)) = some ([0], .value) := by decide +kernel
 
 end LokyModel.Exec
